@@ -598,7 +598,57 @@ def native_failures(n, seed, limit=3):
     return fails
 
 
+def batch_failures(n, seed, limit=3):
+    """[B] several incident beams in one call (one per run), horizontal and tilted ones mixed in any order, with detectors per run or
+    shared: each run gets the angles it gets when it is evaluated on its own ("for every orientation of the incident beam")."""
+    import numpy as np
+    import scipp as sc
+    from vf.realrun import real_module
+    bl = real_module('conversion.beamline')
+    rng = np.random.default_rng(seed)
+    fails = []
+    for i in range(n):
+        nrun = int(rng.integers(2, 5))
+        g = np.array([0.0, -9.80665, 0.0])
+        tilts = [float(rng.choice([0.0, 10 ** rng.uniform(-6, -0.5), -10 ** rng.uniform(-3, -1)])) for _ in range(nrun)]
+        if i % 2 == 0:
+            tilts[int(rng.integers(nrun))] = 0.0                      # at least one exactly horizontal beam ...
+            tilts[int(rng.integers(nrun))] = 0.05 * (1 + rng.random())  # ... and (almost always) a tilted one
+        b1 = np.array([[0.0, np.sin(t) * 10, np.cos(t) * 10] for t in tilts])
+        npix = int(rng.integers(1, 4))
+        shared = False      # (detectors shared between runs with one incident beam per run are refused by the pinned tree -- DimensionError of an in-place operation; operand shapes are not in C04's quantifier, DESIGN 0.8)
+        b2 = rng.normal(size=((npix, 3) if shared else (nrun, npix, 3))) + np.array([0.0, 0.0, 2.0])
+        lam = sc.scalar(float(rng.uniform(0.5, 20)), unit='angstrom')
+        grav = sc.vector(g, unit='m/s^2')
+        inc = sc.vectors(dims=['run'], values=b1, unit='m')
+        sca = sc.vectors(dims=['pixel'] if shared else ['run', 'pixel'], values=b2, unit='m')
+        desc = {'id': f'batch{i}', 'index': i, 'seed': seed, 'kind': 'batch', 'tilts': tilts, 'detectors_shared': shared}
+        try:
+            whole = bl.scattering_angles_with_gravity(incident_beam=inc, scattered_beam=sca, wavelength=lam, gravity=grav)
+            prob = None
+            for k in range(nrun):
+                one = bl.scattering_angles_with_gravity(incident_beam=inc['run', k].copy(), scattered_beam=(sca if shared else sca['run', k]).copy(), wavelength=lam, gravity=grav)
+                for name in ('two_theta', 'phi'):
+                    a, b = whole[name]['run', k].values, one[name].values
+                    if not np.allclose(a, b, rtol=0, atol=5e-10):    # the two implementations agree to the size of the orthogonality band
+                        prob = f'{name} of run {k} (tilt {tilts[k]}) is {a.ravel()[:2]} in the batch and {b.ravel()[:2]} on its own'
+                        break
+                if prob:
+                    break
+        except Exception as e:  # noqa: BLE001
+            prob = f'raised {type(e).__name__}: {e}'[:300]
+        if prob:
+            fails.append({**desc, 'problem': prob})
+            if len(fails) >= limit:
+                break
+    return fails
+
+
 def native_stand_in(chk):
+    nb = 120 if chk.tier == 'quick' else 3000
+    bf = batch_failures(nb, 44 + chk.seed)
+    chk.bounded_check('several-incident-beams-in-one-call', 'real scattering_angles_with_gravity with one incident beam per run (horizontal and tilted mixed), detectors per run: '
+                      'every run as on its own', f'{nb} batches of 2..4 runs x 1..3 detectors', nb, bf)
     n = 250 if chk.tier == 'quick' else 6000
     fails = native_failures(n, 40 + chk.seed)
     chk.bounded_check('documented-construction(random configurations)', 'real scattering_angles_with_gravity / scattering_angle_in_yz_plane vs the documented '
@@ -640,6 +690,11 @@ def replay(rec):
     h, m = sc.constants.h.value, sc.constants.m_n.value
     model = rec.get('model') or {}
     name = rec['obligation']
+    if '/bounded/several-incident-beams-in-one-call' in name:
+        f = rec.get('meta', {}).get('replay') or {}
+        fails = batch_failures(int(f.get('index', 0)) + 1, int(f.get('seed', 44)), limit=10 ** 6)
+        hit = [x for x in fails if x['index'] == f.get('index')]
+        return {'reproduced': bool(hit), 'case': hit[:1]}
     if '/bounded/documented-construction' in name:
         f = rec.get('meta', {}).get('replay') or {}
         fails = native_failures(int(f.get('index', 0)) + 1, int(f.get('seed', 40)), limit=10 ** 6)
